@@ -1146,8 +1146,11 @@ class Image(object):
             # update semantics. It will behave unusually if two buffers overlap
             # and disagree on their non-zero pixel values: instead of the second
             # buffer "winning", we'll effectively get a mix-and-match of which
-            # buffer "wins", biased towards the brighter values.
-            np.maximum(sub_b, sub_i, out=sub_b)
+            # buffer "wins", biased towards the brighter values. For
+            # non-negative data this is just `np.maximum()`, but we must not
+            # let the zero maskval win over negative data values.
+            valid = (sub_i != 0) & ((sub_b == 0) | (sub_i > sub_b))
+            np.putmask(sub_b, valid, sub_i)
         else:
             raise Exception(
                 f"unhandled mode `{self.mode}` in update_into_maskable_buffer"
